@@ -48,21 +48,21 @@ var c01Receiver = func() types.EthAddress {
 }()
 
 // c01Setup registers the token, a symbolic tax rate, balances, and performs p sends.
-func c01Setup(p int) (*vEnv, *c01Ghost) {
-	env := newVEnv(100)
-	if err := env.k.setDenomToERC20(env.ctx, vChain, vDenom, c01Erc20); err != nil {
+func c01Setup(p int) (*VEnv, *c01Ghost) {
+	env := NewVEnv(100)
+	if err := env.K.setDenomToERC20(env.Ctx, vChain, vDenom, c01Erc20); err != nil {
 		panic(err)
 	}
 	num := sym.Uint64Range("taxnum", 0, 1000)
 	den := sym.Uint64Range("taxden", 1, 1000)
-	if err := env.k.SetBridgeTax(env.ctx, &types.BridgeTax{Token: vDenom, Rate: sdkmath.NewIntFromUint64(num).String() + "/" + sdkmath.NewIntFromUint64(den).String()}); err != nil {
+	if err := env.K.SetBridgeTax(env.Ctx, &types.BridgeTax{Token: vDenom, Rate: sdkmath.NewIntFromUint64(num).String() + "/" + sdkmath.NewIntFromUint64(den).String()}); err != nil {
 		panic(err)
 	}
 	balA := sdkmath.NewIntFromBigInt(sym.BigInt("balA", 200))
 	balB := sdkmath.NewIntFromBigInt(sym.BigInt("balB", 200))
-	env.bank.SetBalance(vUserA, vDenom, balA)
-	env.bank.SetBalance(vUserB, vDenom, balB)
-	env.bank.SetSupply(vDenom, balA.Add(balB))
+	env.Bank.SetBalance(vUserA, vDenom, balA)
+	env.Bank.SetBalance(vUserB, vDenom, balB)
+	env.Bank.SetSupply(vDenom, balA.Add(balB))
 	g := &c01Ghost{}
 	for i := 0; i < p; i++ {
 		sender := vUserA
@@ -70,7 +70,7 @@ func c01Setup(p int) (*vEnv, *c01Ghost) {
 			sender = vUserB
 		}
 		amt := sdkmath.NewIntFromBigInt(sym.BigInt("amount", 128))
-		id, err := env.k.AddToOutgoingPool(env.ctx, sender, c01Receiver, sdk.Coin{Denom: vDenom, Amount: amt}, vChain)
+		id, err := env.K.AddToOutgoingPool(env.Ctx, sender, c01Receiver, sdk.Coin{Denom: vDenom, Amount: amt}, vChain)
 		sym.Assume(err == nil) // only accepted sends build the pre-state
 		sym.Assert(id == uint64(i+2), "send-ids-increase") // autoIncrementID starts at 1 and returns 2 first
 		tax := new(big.Int).Quo(new(big.Int).Mul(amt.BigInt(), new(big.Int).SetUint64(num)), new(big.Int).SetUint64(den))
@@ -83,9 +83,9 @@ func c01Setup(p int) (*vEnv, *c01Ghost) {
 }
 
 // c01Holdings sums amount+tax over pool and open batches as the keeper reports them.
-func c01Holdings(env *vEnv) (pool, batched sdkmath.Int, nPool, nBatched int) {
+func c01Holdings(env *VEnv) (pool, batched sdkmath.Int, nPool, nBatched int) {
 	pool, batched = sdkmath.ZeroInt(), sdkmath.ZeroInt()
-	txs, err := env.k.GetUnbatchedTransactions(env.ctx)
+	txs, err := env.K.GetUnbatchedTransactions(env.Ctx)
 	if err != nil {
 		panic(err)
 	}
@@ -93,7 +93,7 @@ func c01Holdings(env *vEnv) (pool, batched sdkmath.Int, nPool, nBatched int) {
 		pool = pool.Add(tx.Erc20Token.Amount).Add(tx.BridgeTaxAmount)
 		nPool++
 	}
-	bs, err := env.k.GetOutgoingTxBatches(env.ctx)
+	bs, err := env.K.GetOutgoingTxBatches(env.Ctx)
 	if err != nil {
 		panic(err)
 	}
@@ -106,9 +106,9 @@ func c01Holdings(env *vEnv) (pool, batched sdkmath.Int, nPool, nBatched int) {
 	return
 }
 
-func c01CheckInvariant(env *vEnv, label string) {
+func c01CheckInvariant(env *VEnv, label string) {
 	pool, batched, _, _ := c01Holdings(env)
-	escrow := env.bank.ModuleBalance(types.ModuleName, vDenom)
+	escrow := env.Bank.ModuleBalance(types.ModuleName, vDenom)
 	sym.Assert(escrow.Equal(pool.Add(batched)), label)
 }
 
@@ -126,7 +126,7 @@ func VerifC01_Send() {
 	env, g := c01Setup(p)
 	sym.Reach("sends-accepted")
 	c01CheckInvariant(env, "escrow-equals-pending-after-sends")
-	escrow := env.bank.ModuleBalance(types.ModuleName, vDenom)
+	escrow := env.Bank.ModuleBalance(types.ModuleName, vDenom)
 	sym.Assert(escrow.Equal(g.total()), "escrow-equals-ghost-amount-plus-tax")
 	_, _, nPool, nBatched := c01Holdings(env)
 	sym.Assert(nPool == p && nBatched == 0, "every-send-in-pool-once")
@@ -138,18 +138,18 @@ func VerifC01_Send() {
 func VerifC01_Cancel() {
 	p := 1 + sym.Choice("p", c01MaxSends())
 	env, g := c01Setup(p)
-	env.bank.Faults, env.evm.Faults = true, true
+	env.Bank.Faults, env.EVM.Faults = true, true
 	id := 2 + sym.Choice("cancel-id", p+1) // ids 2..p+1 exist; p+2 does not
 	who := vUserA
 	if sym.Bool("cancellerIsB") {
 		who = vUserB
 	}
-	beforeBank := env.bank.Snapshot()
-	beforeMS := env.ms.Clone()
-	balBefore := env.bank.Balance(who, vDenom)
+	beforeBank := env.Bank.Snapshot()
+	beforeMS := env.MS.Clone()
+	balBefore := env.Bank.Balance(who, vDenom)
 
-	cctx, commit := env.ctx.CacheContext()
-	err := env.k.RemoveFromOutgoingPoolAndRefund(cctx, uint64(id), who)
+	cctx, commit := env.Ctx.CacheContext()
+	err := env.K.RemoveFromOutgoingPoolAndRefund(cctx, uint64(id), who)
 	if err == nil {
 		commit()
 	}
@@ -157,8 +157,8 @@ func VerifC01_Cancel() {
 		sym.Reach("cancel-rejected")
 		// bank effects are not covered by the store cache; a failing bank call has no effect (atomic) so
 		// the only way to lose funds is a bank call that succeeded before a later failure
-		sym.Assert(env.ms.Equal(beforeMS), "failed-cancel-leaves-store-unchanged")
-		if !env.bank.Unchanged(beforeBank) {
+		sym.Assert(env.MS.Equal(beforeMS), "failed-cancel-leaves-store-unchanged")
+		if !env.Bank.Unchanged(beforeBank) {
 			// refund went out but the operation reported failure: in a real tx the whole
 			// tx (bank included) is reverted by baseapp; record the witness only
 			sym.Reach("cancel-failed-after-refund")
@@ -170,7 +170,7 @@ func VerifC01_Cancel() {
 	sym.Assert(idx < p, "cancel-only-existing")
 	sym.Assert(who.Equals(g.sender[idx]), "cancel-only-by-sender")
 	want := balBefore.Add(g.amount[idx]).Add(g.tax[idx])
-	sym.Assert(env.bank.Balance(who, vDenom).Equal(want), "cancel-refunds-amount-plus-tax")
+	sym.Assert(env.Bank.Balance(who, vDenom).Equal(want), "cancel-refunds-amount-plus-tax")
 	c01CheckInvariant(env, "escrow-equals-pending-after-cancel")
 	_, _, nPool, _ := c01Holdings(env)
 	sym.Assert(nPool == p-1, "cancel-removes-exactly-one")
@@ -181,18 +181,18 @@ func VerifC01_Cancel() {
 func VerifC01_Build() {
 	p := 1 + sym.Choice("p", c01MaxSends())
 	env, _ := c01Setup(p)
-	env.evm.Faults = true
-	beforeBank := env.bank.Snapshot()
-	beforeMS := env.ms.Clone()
+	env.EVM.Faults = true
+	beforeBank := env.Bank.Snapshot()
+	beforeMS := env.MS.Clone()
 	_, _, nPool0, _ := c01Holdings(env)
 
-	batch, err := env.k.BuildOutgoingTXBatch(env.ctx, vChain, c01Erc20, OutgoingTxBatchSize)
-	sym.Assert(env.bank.Unchanged(beforeBank), "build-moves-no-coins")
+	batch, err := env.K.BuildOutgoingTXBatch(env.Ctx, vChain, c01Erc20, OutgoingTxBatchSize)
+	sym.Assert(env.Bank.Unchanged(beforeBank), "build-moves-no-coins")
 	if err != nil {
 		sym.Reach("build-failed")
 		_, _, nPool1, nB1 := c01Holdings(env)
 		sym.Assert(nPool1 == nPool0 && nB1 == 0, "failed-build-leaves-pool-and-batches-unchanged")
-		sym.Assert(env.ms.Equal(beforeMS), "failed-build-leaves-store-unchanged")
+		sym.Assert(env.MS.Equal(beforeMS), "failed-build-leaves-store-unchanged")
 		c01CheckInvariant(env, "escrow-equals-pending-after-failed-build")
 		return
 	}
@@ -208,21 +208,21 @@ func VerifC01_Build() {
 func VerifC01_BatchLife() {
 	p := 1 + sym.Choice("p", c01MaxSends())
 	env, g := c01Setup(p)
-	batch, err := env.k.BuildOutgoingTXBatch(env.ctx, vChain, c01Erc20, OutgoingTxBatchSize)
+	batch, err := env.K.BuildOutgoingTXBatch(env.Ctx, vChain, c01Erc20, OutgoingTxBatchSize)
 	if err != nil || batch == nil {
 		panic("setup: build failed")
 	}
-	env.bank.Faults, env.evm.Faults = true, true
-	beforeBank := env.bank.Snapshot()
-	beforeMS := env.ms.Clone()
-	supply0 := env.bank.Supply(vDenom)
+	env.Bank.Faults, env.EVM.Faults = true, true
+	beforeBank := env.Bank.Snapshot()
+	beforeMS := env.MS.Clone()
+	supply0 := env.Bank.Supply(vDenom)
 	switch sym.Choice("step", 2) {
 	case 0: // cancel (timeout sweep uses this)
-		err := env.k.CancelOutgoingTXBatch(env.ctx, c01Erc20, batch.BatchNonce)
-		sym.Assert(env.bank.Unchanged(beforeBank), "batch-cancel-moves-no-coins")
+		err := env.K.CancelOutgoingTXBatch(env.Ctx, c01Erc20, batch.BatchNonce)
+		sym.Assert(env.Bank.Unchanged(beforeBank), "batch-cancel-moves-no-coins")
 		if err != nil {
 			sym.Reach("batch-cancel-failed")
-			sym.Assert(env.ms.Equal(beforeMS), "failed-batch-cancel-leaves-store-unchanged")
+			sym.Assert(env.MS.Equal(beforeMS), "failed-batch-cancel-leaves-store-unchanged")
 		} else {
 			sym.Reach("batch-cancel-ok")
 			_, _, nPool, nB := c01Holdings(env)
@@ -231,16 +231,16 @@ func VerifC01_BatchLife() {
 		c01CheckInvariant(env, "escrow-equals-pending-after-batch-cancel")
 	case 1: // executed
 		claim := types.MsgBatchSendToRemoteClaim{EventNonce: 1, EthBlockHeight: 1, BatchNonce: batch.BatchNonce, ChainReferenceId: vChain, TokenContract: vErc20}
-		err := env.k.OutgoingTxBatchExecuted(env.ctx, c01Erc20, claim)
+		err := env.K.OutgoingTxBatchExecuted(env.Ctx, c01Erc20, claim)
 		if err != nil {
 			sym.Reach("executed-failed")
-			sym.Assert(env.ms.Equal(beforeMS), "failed-execute-leaves-store-unchanged")
-			sym.Assert(env.bank.Unchanged(beforeBank), "failed-execute-leaves-balances-unchanged")
+			sym.Assert(env.MS.Equal(beforeMS), "failed-execute-leaves-store-unchanged")
+			sym.Assert(env.Bank.Unchanged(beforeBank), "failed-execute-leaves-balances-unchanged")
 		} else {
 			sym.Reach("executed-ok")
 			_, _, nPool, nB := c01Holdings(env)
 			sym.Assert(nPool == 0 && nB == 0, "executed-batch-is-gone")
-			sym.Assert(env.bank.Supply(vDenom).Equal(supply0.Sub(g.total())), "executed-burns-amount-plus-tax")
+			sym.Assert(env.Bank.Supply(vDenom).Equal(supply0.Sub(g.total())), "executed-burns-amount-plus-tax")
 		}
 		c01CheckInvariant(env, "escrow-equals-pending-after-execute")
 	}
